@@ -161,6 +161,7 @@ class Interp:
         module = func.module
         env = self.bind_args(ctx, fn_node, module, args, kwargs, closure_env)
         env['__module__'] = module
+        env['__self__'] = args[0] if args else None
         env['__class__'] = getattr(func, 'cls', None) if not isinstance(func, Closure) else (closure_env or {}).get('__class__')
         self.stats['calls'] += 1
         if isinstance(fn_node, ast.Lambda):
@@ -670,6 +671,17 @@ class Interp:
     def ex_List(self, n, ctx, env):
         return ctx.alloc('list', self.ex_Tuple(n, ctx, env))
 
+    def ex_Dict(self, n, ctx, env):
+        d = {}
+        for k, v in zip(n.keys, n.values):
+            if k is None:
+                raise PyvcUnsupported('dict unpacking')
+            kk = self.eval(k, ctx, env)
+            if not models.is_concrete(kk):
+                raise PyvcUnsupported(f'dict literal with a symbolic key at {self.where(n)}')
+            d[kk] = self.eval(v, ctx, env)
+        return ctx.alloc('dict', d)
+
     def ex_Set(self, n, ctx, env):
         return ctx.alloc('set', self.ex_Tuple(n, ctx, env))
 
@@ -809,6 +821,8 @@ class Interp:
         return Closure(n, env, env.get('__module__'))
 
     def ex_Call(self, n, ctx, env):
+        if isinstance(n.func, ast.Name) and n.func.id == 'super' and not n.args and 'super' not in env:
+            return SuperProxy(env.get('__self__'), env.get('__class__'))
         f = self.eval(n.func, ctx, env)
         if ctx.dead:
             return None
@@ -1267,6 +1281,25 @@ class Interp:
                     return None
                 return self.getattr(a, name, sub, env, node)
             return self.split(ctx, obj, one)
+        if isinstance(obj, SuperProxy):
+            inst = obj.self_val
+            if isinstance(inst, type):
+                cls = inst
+            elif isinstance(inst, (Ref, Snapshot)):
+                cls = models.content(self, ctx, inst)[0].cls
+            else:
+                cls = inst.cls
+            mro = cls.__mro__
+            for klass in mro[mro.index(obj.cls) + 1:]:
+                if name in klass.__dict__:
+                    raw = klass.__dict__[name]
+                    f = self.src.of_native(raw)
+                    if f is not None:
+                        return BoundMethod(f, inst)
+                    if klass is object and name == '__init__':
+                        return models.object_init_marker
+                    raise PyvcUnsupported(f'super().{name} resolves to native code at {self.where(node)}')
+            raise PyvcUnsupported(f'super().{name} not found at {self.where(node)}')
         if isinstance(obj, (Ref, Snapshot)):
             content, heap = models.content(self, ctx, obj)
             if isinstance(content, SymObj):
@@ -1278,6 +1311,8 @@ class Interp:
             if name in obj.fields:
                 return obj.fields[name]
             return self.class_getattr(obj.cls, obj, name, ctx, node)
+        if isinstance(obj, enum.Enum) and name in ('name', 'value'):
+            return getattr(obj, name)
         if isinstance(obj, (tuple, SymSeq, TailSeq, BitSet, FlagSet, range, SymMapping)):
             return BuiltinMethod(obj, name)
         if isinstance(obj, SymEnum):
@@ -1289,6 +1324,8 @@ class Interp:
         if isinstance(obj, type):
             if obj is itertools.chain and name == 'from_iterable':
                 return models.chain_from_iterable_marker
+            if name in ('__name__', '__qualname__', '__module__'):
+                return getattr(obj, name)
             kind, payload = self.src.class_attr(obj, name)
             if kind in ('func', 'staticmethod'):
                 return payload
@@ -1404,6 +1441,13 @@ class Interp:
             return self.call_func(ctx, fn, args, kwargs, node, closure_env=f.env)
         if isinstance(f, BuiltinMethod):
             return models.call_method(self, ctx, f.recv, f.name, args, kwargs, node)
+        if isinstance(f, (Ref, SymObj)):
+            obj = ctx.get(f) if isinstance(f, Ref) else f
+            if isinstance(obj, SymObj):
+                kind, fn = self.src.class_attr(obj.cls, '__call__')
+                if kind == 'func':
+                    return self.call_user(fn, [f] + list(args), kwargs, ctx, node)
+            raise PyvcUnsupported(f'call of an object without __call__ at {self.where(node)}')
         return self.call_native(f, args, kwargs, ctx, node)
 
     def call_user(self, fn, args, kwargs, ctx, node):
@@ -1435,8 +1479,18 @@ class Interp:
                         return self.split(ctx, a, one)
             return model(self, ctx, args, kwargs, node)
         if isinstance(f, type):
+            cut = self.cuts.get(f'{f.__module__}.{f.__qualname__}')
+            if cut is not None:
+                return cut(self, ctx, f, args, kwargs, node)
             if issubclass(f, BaseException):
                 return Exc(f, self.where(node))
+            if f.__module__.startswith('pokerkit') and not dataclasses.is_dataclass(f) and not issubclass(f, enum.Enum):
+                # plain class of the package: allocate and run the real __init__
+                ref = ctx.alloc('obj', SymObj(f, {}))
+                kind, init = self.src.class_attr(f, '__init__')
+                if kind == 'func':
+                    self.call_user(init, [ref] + list(args), kwargs, ctx, node)
+                return ref
             if dataclasses.is_dataclass(f) and f.__module__.startswith(('pokerkit', 'spec', 'contracts')):
                 return self.construct(f, args, kwargs, ctx, node)
             if issubclass(f, enum.Enum) and len(args) == 1:
